@@ -6,21 +6,25 @@ pub open spec fn all_members_ok(es: Seq<ArchiveEntry>) -> bool {
     es.len() <= 1_000_000 && forall|i: int| 0 <= i < es.len() ==> member_ok(#[trigger] es[i])
 }
 
+proof fn lemma_le32_one(x: u32) ensures u32_le(x).len() == 4, le32(u32_le(x)) == x {
+    vstd::bytes::lemma_auto_spec_u32_to_from_le_bytes();
+    let s = vstd::bytes::spec_u32_to_le_bytes(x);
+    assert(s.len() == 4);
+    assert(vstd::bytes::spec_u32_from_le_bytes(s) == x);
+}
+proof fn lemma_le64_one(x: u64) ensures u64_le(x).len() == 8, le64(u64_le(x)) == x {
+    vstd::bytes::lemma_auto_spec_u64_to_from_le_bytes();
+    let s = vstd::bytes::spec_u64_to_le_bytes(x);
+    assert(s.len() == 8);
+    assert(vstd::bytes::spec_u64_from_le_bytes(s) == x);
+}
 pub proof fn lemma_le_roundtrip()
     ensures
         forall|x: u32| #![trigger u32_le(x)] u32_le(x).len() == 4 && le32(u32_le(x)) == x,
         forall|x: u64| #![trigger u64_le(x)] u64_le(x).len() == 8 && le64(u64_le(x)) == x,
 {
-    vstd::bytes::lemma_auto_spec_u32_to_from_le_bytes();
-    vstd::bytes::lemma_auto_spec_u64_to_from_le_bytes();
-    assert forall|x: u32| #![trigger u32_le(x)] u32_le(x).len() == 4 && le32(u32_le(x)) == x by {
-        let s = vstd::bytes::spec_u32_to_le_bytes(x);
-        assert(s.len() == 4 && vstd::bytes::spec_u32_from_le_bytes(s) == x);
-    }
-    assert forall|x: u64| #![trigger u64_le(x)] u64_le(x).len() == 8 && le64(u64_le(x)) == x by {
-        let s = vstd::bytes::spec_u64_to_le_bytes(x);
-        assert(s.len() == 8 && vstd::bytes::spec_u64_from_le_bytes(s) == x);
-    }
+    assert forall|x: u32| #![trigger u32_le(x)] u32_le(x).len() == 4 && le32(u32_le(x)) == x by { lemma_le32_one(x); }
+    assert forall|x: u64| #![trigger u64_le(x)] u64_le(x).len() == 8 && le64(u64_le(x)) == x by { lemma_le64_one(x); }
 }
 
 // the frame of entry k sits at [off_of(k), off_of(k + 1)) of the member area of any longer prefix
